@@ -86,6 +86,119 @@ Ltac fin := eval_conds; rw_known; eval_conds; bool_simp; auto.
 Ltac step t := eval_conds; case_on t; eval_conds.
 
 (* ------------------------------------------------------------------------------------------------
+   the engine for long check sequences
+   ------------------------------------------------------------------------------------------------ *)
+Fixpoint ok_at (k : nat) (cs : list cond) : bool :=
+  match cs, k with
+  | [], _ => true
+  | x :: _, O => c_ok x
+  | _ :: t, S k' => ok_at k' t
+  end.
+Fixpoint rej_at (k : nat) (cs : list cond) : bool :=
+  match cs, k with
+  | [], _ => true
+  | x :: _, O => c_ok x || is_ignore (c_tag x)
+  | _ :: t, S k' => rej_at k' t
+  end.
+Lemma ok_at_false k cs : ok_at k cs = false -> all_conditions cs = false.
+Proof.
+  unfold all_conditions. revert k. induction cs as [|x cs IH]; intros k; [destruct k; discriminate|].
+  destruct k as [|k]; cbn.
+  - intros ->. reflexivity.
+  - intros H. rewrite (IH k H). apply andb_false_r.
+Qed.
+Lemma rej_at_false k cs : rej_at k cs = false -> no_reject_fails cs = false.
+Proof.
+  unfold no_reject_fails. revert k. induction cs as [|x cs IH]; intros k; [destruct k; discriminate|].
+  destruct k as [|k]; cbn.
+  - intros ->. reflexivity.
+  - intros H. rewrite (IH k H). apply andb_false_r.
+Qed.
+
+Ltac arith_known :=
+  repeat match goal with
+         | |- context [?x <=? ?y] => first [replace (x <=? y) with true by lia | replace (x <=? y) with false by lia]
+         | |- context [?x <? ?y] => first [replace (x <? y) with true by lia | replace (x <? y) with false by lia]
+         | |- context [?x =? ?y] => first [replace (x =? y) with true by lia | replace (x =? y) with false by lia]
+         end.
+Ltac rw_pairs := repeat match goal with H : ?x = (_, _) |- context [?x] => rewrite H end.
+(* goal-directed: rewrite the terms evaluation is blocked on, when a hypothesis decides them *)
+Ltac use_hyp x := lazymatch goal with H : x = _ |- _ => rewrite H end.
+Ltac rw_goal :=
+  repeat match goal with
+         | |- context [match ?x with _ => _ end] => use_hyp x
+         | |- context [andb ?x _] => use_hyp x
+         | |- context [andb _ ?x] => use_hyp x
+         | |- context [orb ?x _] => use_hyp x
+         | |- context [negb ?x] => use_hyp x
+         | |- context [is_some ?x] => use_hyp x
+         | |- context [on ?x _] => use_hyp x
+         | |- context [fst ?x] => use_hyp x
+         | |- context [snd ?x] => use_hyp x
+         | |- ?x = _ => use_hyp x
+         end.
+Ltac bsimp := cbn [negb andb orb]; rewrite ?andb_true_r, ?andb_false_r, ?orb_true_r, ?orb_false_r.
+Ltac crunch1 := eval_conds; rw_goal; bsimp.
+Ltac crunch := repeat (progress crunch1); arith_known; repeat (progress crunch1).
+
+(* exhibit a failing condition: `sel` reduces `ok_at k <list>` to the k-th condition, `unf` unfolds the spec helpers *)
+Ltac cheap := repeat (progress crunch1); reflexivity.
+Ltac costly := repeat (progress crunch1);
+  lazymatch goal with
+  | |- true = false => fail
+  | _ => arith_known; repeat (progress crunch1); reflexivity
+  end.
+Ltac try_at f lem k sel unf := apply (lem k); sel; unf; f.
+Ltac falsify_with f lem sel unf :=
+  first [ try_at f lem 0%nat sel unf | try_at f lem 1%nat sel unf | try_at f lem 2%nat sel unf | try_at f lem 3%nat sel unf
+        | try_at f lem 4%nat sel unf | try_at f lem 5%nat sel unf | try_at f lem 6%nat sel unf | try_at f lem 7%nat sel unf
+        | try_at f lem 8%nat sel unf | try_at f lem 9%nat sel unf | try_at f lem 10%nat sel unf | try_at f lem 11%nat sel unf
+        | try_at f lem 12%nat sel unf | try_at f lem 13%nat sel unf | try_at f lem 14%nat sel unf | try_at f lem 15%nat sel unf
+        | try_at f lem 16%nat sel unf | try_at f lem 17%nat sel unf | try_at f lem 18%nat sel unf | try_at f lem 19%nat sel unf
+        | try_at f lem 20%nat sel unf | try_at f lem 21%nat sel unf | try_at f lem 22%nat sel unf | try_at f lem 23%nat sel unf
+        | try_at f lem 24%nat sel unf | try_at f lem 25%nat sel unf | try_at f lem 26%nat sel unf | try_at f lem 27%nat sel unf ].
+(* first the conditions that mention the term just decided, then all of them, then with arithmetic *)
+Ltac falsify key lem sel unf :=
+  first [ falsify_with ltac:(lazymatch goal with |- context [key] => cheap end) lem sel unf
+        | falsify_with cheap lem sel unf
+        | falsify_with costly lem sel unf ].
+Ltac is_leaf := lazymatch goal with |- match fst (_, _) with ACCEPT => _ | _ => _ end => idtac end.
+Ltac unlocal := repeat match goal with x := _ |- _ => subst x end.
+(* the scrutinee the sequential program is waiting for *)
+Ltac head_of t :=
+  lazymatch t with
+  | match ?u with _ => _ end => head_of u
+  | negb ?u => head_of u
+  | _ => t
+  end.
+(* one step of a check sequence: `pre` = topic-specific preparation, `lf` = leaf solver *)
+Ltac seq_step pre lf :=
+  lazymatch goal with
+  | |- match fst ?r with ACCEPT => _ | _ => _ end =>
+    pre;
+    lazymatch goal with
+    | |- match fst ?r with ACCEPT => _ | _ => _ end =>
+      let t := head_of r in
+      (tryif is_var t then destruct t else case_on t);
+      cbn [negb];
+      tryif is_leaf then (unlocal; lf t) else idtac
+    end
+  end.
+
+Ltac accept_leaf sel unf :=
+  lazymatch goal with
+  | |- all_conditions _ = true => sel; unf; crunch; reflexivity
+  end.
+Ltac leaf key sel unf :=
+  cbn [negb fst snd];
+  lazymatch goal with
+  | |- all_conditions _ = false /\ _ = [] => split; [falsify key ok_at_false sel unf | reflexivity]
+  | |- no_reject_fails _ = false /\ _ = [] => split; [falsify key rej_at_false sel unf | reflexivity]
+  | |- all_conditions _ = true => accept_leaf sel unf
+  end.
+
+
+(* ------------------------------------------------------------------------------------------------
    numeric-range hypotheses
    ------------------------------------------------------------------------------------------------ *)
 Definition cfg_wf (c : config) : Prop :=
@@ -186,5 +299,290 @@ Section Proofs.
   Theorem proposer_slashing_laws ps :
     verdict_laws (validate_proposer_slashing b ps) (proposer_slashing_conditions b ps).
   Proof. apply verdict_ok_laws, proposer_slashing_verdict_ok. Qed.
+
+  (* ============================================================================================
+     shared helpers of the attestation topics
+     ============================================================================================ *)
+  Lemma start_slot_spec e : cfg_wf c -> e < two64 ->
+    start_slot c e = match compute_start_slot_at_epoch b e with Some s => Ok s | None => Err end.
+  Proof.
+    intros [H0 H1] He. unfold start_slot, compute_start_slot_at_epoch.
+    rewrite (epoch_start_slot_exact _ H0 e He H1). unfold epoch_start_slot_spec.
+    destruct (e * SLOTS_PER_EPOCH c <? two64); reflexivity.
+  Qed.
+
+  Lemma start_slot_val_spec e : cfg_wf c -> e < two64 ->
+    start_slot_val c e = match compute_start_slot_at_epoch b e with Some s => s | None => 0 end.
+  Proof.
+    intros Hc He. unfold start_slot_val. rewrite (start_slot_spec e Hc He).
+    destruct (compute_start_slot_at_epoch b e); reflexivity.
+  Qed.
+
+  Lemma span_ok_spec slot : slot < two64 ->
+    span_ok b slot ATTESTATION_PROPAGATION_SLOT_RANGE = within_propagation_range b slot.
+  Proof.
+    intros Hs. unfold span_ok, within_propagation_range, earliest_slot, latest_slot.
+    rewrite check_slot_span_iff by (auto; reflexivity). reflexivity.
+  Qed.
+
+  Lemma select_bits_spec bits comm : select_bits bits comm = attesting_indices bits comm.
+  Proof.
+    unfold attesting_indices. revert comm. induction bits as [|bt bits IH]; intros comm; [reflexivity|].
+    destruct comm as [|v comm]; [reflexivity|]. cbn. destruct bt; cbn; rewrite IH; reflexivity.
+  Qed.
+
+  Lemma single_from_spec bits comm found :
+    single_from bits comm found =
+    match (match found with Some v => [v] | None => [] end) ++ attesting_indices bits comm with
+    | [] => Some None
+    | [v] => Some (Some v)
+    | _ => None
+    end.
+  Proof.
+    rewrite <- select_bits_spec. revert comm found. induction bits as [|bt bits IH]; intros comm found.
+    - cbn. destruct found; reflexivity.
+    - destruct comm as [|v comm]; [cbn; destruct found; reflexivity|].
+      cbn [single_from select_bits]. destruct bt.
+      + destruct found as [w|].
+        * cbn. destruct (select_bits bits comm); reflexivity.
+        * rewrite IH. reflexivity.
+      + apply IH.
+  Qed.
+
+  Lemma single_participant_spec att comm :
+    single_participant (a_bits att) comm = if lenN (a_bits att) =? lenN comm then the_voter att comm else None.
+  Proof.
+    unfold single_participant, the_voter. destruct (lenN (a_bits att) =? lenN comm); cbn [negb]; [|reflexivity].
+    rewrite single_from_spec. cbn [app].
+    destruct (attesting_indices (a_bits att) comm) as [|v [|w l]]; reflexivity.
+  Qed.
+
+  Lemma attesting_count bits comm : length bits = length comm ->
+    length (attesting_indices bits comm) = length (filter (fun x => x) bits).
+  Proof.
+    unfold attesting_indices. revert comm. induction bits as [|bt bits IH]; intros comm Hl; [reflexivity|].
+    destruct comm as [|v comm]; [discriminate|]. cbn. injection Hl as Hl. destruct bt; cbn; rewrite IH; auto.
+  Qed.
+
+  Lemma one_bit_voter att comm :
+    count_true (a_bits att) = 1 -> lenN (a_bits att) = lenN comm -> exists v, the_voter att comm = Some v.
+  Proof.
+    unfold count_true, lenN, the_voter. intros H1 Hl.
+    assert (Hl' : length (a_bits att) = length comm) by lia.
+    pose proof (attesting_count _ _ Hl') as Hc.
+    destruct (attesting_indices (a_bits att) comm) as [|v [|w l]]; cbn in Hc.
+    - lia.
+    - eexists; reflexivity.
+    - lia.
+  Qed.
+
+  Lemma compute_subnet_spec cps slot index : cfg_wf c -> cps * SLOTS_PER_EPOCH c < two64 -> index < cps ->
+    compute_subnet b cps slot index = compute_subnet_for_attestation b cps slot index.
+  Proof.
+    intros [H0 H1] Hc Hi. unfold compute_subnet, compute_subnet_for_attestation, mul64, add64.
+    assert (Hm : slot mod SLOTS_PER_EPOCH c < SLOTS_PER_EPOCH c) by (apply N.mod_lt; lia).
+    assert (Hx : cps * (slot mod SLOTS_PER_EPOCH c) + index < cps * SLOTS_PER_EPOCH c) by nia.
+    rewrite (wrap64_small (cps * SLOTS_PER_EPOCH c)) by lia.
+    rewrite (wrap64_small (cps * (slot mod SLOTS_PER_EPOCH c))) by nia.
+    rewrite (wrap64_small (cps * (slot mod SLOTS_PER_EPOCH c) + index)) by lia.
+    replace (cps * SLOTS_PER_EPOCH c <=? index) with false by nia.
+    replace (cps * SLOTS_PER_EPOCH c <? two64) with true by lia.
+    replace (cps * (slot mod SLOTS_PER_EPOCH c) + index <? two64) with true by lia.
+    reflexivity.
+  Qed.
+
+  Definition att_wf (d : att_data) : Prop := ad_slot d < two64 /\ cp_epoch (ad_target d) < two64.
+  Definition counts_wf : Prop := forall e ep n, committee_count b e ep = Some n -> n * SLOTS_PER_EPOCH c < two64.
+
+  Lemma start_overflow_epoch_mismatch e s : cfg_wf c -> s < two64 ->
+    compute_start_slot_at_epoch b e = None -> (e =? compute_epoch_at_slot b s) = false.
+  Proof.
+    intros [H0 H1] Hs. unfold compute_start_slot_at_epoch, compute_epoch_at_slot.
+    destruct (e * SLOTS_PER_EPOCH c <? two64) eqn:E; [discriminate|]. intros _.
+    apply N.eqb_neq. intros ->. apply N.ltb_ge in E.
+    pose proof (N.mul_div_le s (SLOTS_PER_EPOCH c)). lia.
+  Qed.
+
+
+  (* ============================================================================================
+     beacon_attestation_{subnet_id}
+     ============================================================================================ *)
+  Ltac att_sel := lazy [ok_at rej_at all_conditions no_reject_fails forallb attestation_conditions lmd_conditions app c_ok c_tag mk is_ignore].
+  Ltac att_unf :=
+    unfold when_known, target_state, get_checkpoint_block, lmd_known, target_is_ancestor,
+      target_ancestry_known, finalized_is_ancestor, finalized_ancestry_known, attestation_signature_ok, compute_signing_root.
+  Ltac att_pre :=
+    try (rewrite compute_subnet_spec by
+           first [assumption | lia | match goal with H : counts_wf |- _ => eapply H; eassumption end]);
+    try (rewrite single_participant_spec; rw_known);
+    try match goal with
+        | |- context [the_voter ?a ?cm] =>
+          let v := fresh "voter" in let Hv := fresh "Hv" in
+          destruct (one_bit_voter a cm) as [v Hv]; [lia | lia | rewrite Hv]
+        end.
+  Ltac att_step := seq_step att_pre ltac:(fun t => leaf t att_sel att_unf).
+
+  Lemma attestation_verdict_ok subnet att : cfg_wf c -> att_wf (a_data att) -> counts_wf ->
+    verdict_ok (validate_attestation b subnet att) (attestation_conditions b subnet att).
+  Proof.
+    intros Hc [Hs He] Hn.
+    unfold validate_attestation, validate_attestation_v, verdict_ok.
+    cbn [exact_target fixed].
+    rewrite (start_slot_spec _ Hc He), (span_ok_spec _ Hs).
+    unfold checkpoint_block_of, finalized_checks, signing_root, slot_to_epoch.
+    change (ad_slot (a_data att) / SLOTS_PER_EPOCH c) with (compute_epoch_at_slot b (ad_slot (a_data att))).
+    case_on (compute_start_slot_at_epoch b (cp_epoch (ad_target (a_data att)))).
+    2:{ pose proof (start_overflow_epoch_mismatch _ (ad_slot (a_data att)) Hc Hs E) as Hm. unlocal. leaf tt att_sel att_unf. }
+    rename n into ts.
+    repeat att_step.
+  Qed.
+
+  Theorem attestation_laws subnet att : cfg_wf c -> att_wf (a_data att) -> counts_wf ->
+    verdict_laws (validate_attestation b subnet att) (attestation_conditions b subnet att).
+  Proof. intros. apply verdict_ok_laws, attestation_verdict_ok; assumption. Qed.
+
+  (* ============================================================================================
+     beacon_aggregate_and_proof
+     ============================================================================================ *)
+  (* ---------- indexed attestations ---------- *)
+  Lemma go_sorted_distinct l : go_is_sorted l && go_adjacent_distinct l = strictly_increasing l.
+  Proof.
+    induction l as [|x [|y t] IH]; [reflexivity | reflexivity |].
+    cbn [go_is_sorted go_adjacent_distinct strictly_increasing] in *.
+    rewrite <- IH. destruct (go_is_sorted (y :: t)), (go_adjacent_distinct (y :: t));
+      rewrite ?andb_true_r, ?andb_false_r; cbn [andb]; try reflexivity; try lia.
+    all: destruct (y <? x) eqn:A, (x =? y) eqn:B, (x <? y) eqn:C; cbn; try reflexivity; lia.
+  Qed.
+
+  Lemma strictly_increasing_bound l n : strictly_increasing l = true -> last l 0 < n -> l <> [] ->
+    Forall (fun i => i < n) l.
+  Proof.
+    induction l as [|x [|y t] IH]; intros Hs Hl Hne.
+    - congruence.
+    - constructor; [exact Hl | constructor].
+    - cbn [strictly_increasing] in Hs. apply andb_prop in Hs. destruct Hs as [Hxy Hs].
+      assert (Hf : Forall (fun i => i < n) (y :: t)) by (apply IH; [exact Hs | exact Hl | discriminate]).
+      constructor; [|exact Hf]. inversion Hf; subst. lia.
+  Qed.
+
+  Lemma pubkeys_of_bounded h l n : Forall (fun i => i < n) l -> n = validator_count b h ->
+    validator_pubkeys b h l = pubkeys_of b h l.
+  Proof.
+    intros Hf ->. induction Hf as [|x l Hx Hf IH]; [reflexivity|].
+    cbn [validator_pubkeys pubkeys_of]. replace (x <? validator_count b h) with true by lia.
+    rewrite IH. destruct (pubkey_of b h x); [|reflexivity]. destruct (pubkeys_of b h l); reflexivity.
+  Qed.
+
+  Lemma validator_pubkeys_some h l pks : validator_pubkeys b h l = Some pks ->
+    Forall (fun i => i < validator_count b h) l /\ length pks = length l.
+  Proof.
+    revert pks. induction l as [|x l IH]; intros pks H.
+    - injection H as <-. split; [constructor | reflexivity].
+    - cbn [validator_pubkeys] in H. destruct (x <? validator_count b h) eqn:Hx; [|discriminate].
+      destruct (pubkey_of b h x); [|discriminate]. destruct (validator_pubkeys b h l) as [r|] eqn:Hr; [|discriminate].
+      injection H as <-. destruct (IH r eq_refl) as [Hf Hl]. split; [constructor; [lia | exact Hf] | cbn; lia].
+  Qed.
+
+  Lemma pubkeys_of_length h l pks : pubkeys_of b h l = Some pks -> length pks = length l.
+  Proof.
+    revert pks. induction l as [|x l IH]; intros pks H.
+    - injection H as <-. reflexivity.
+    - cbn [pubkeys_of] in H. destruct (pubkey_of b h x); [|discriminate]. destruct (pubkeys_of b h l) as [r|]; [|discriminate].
+      injection H as <-. cbn. rewrite (IH r eq_refl). reflexivity.
+  Qed.
+
+  Lemma last_bound l n : Forall (fun i => i < n) l -> l <> [] -> last l 0 < n.
+  Proof.
+    induction 1 as [|x l Hx Hf IH]; [congruence|]. intros _. destruct l as [|y t]; [exact Hx|].
+    change (last (x :: y :: t) 0) with (last (y :: t) 0). apply IH. discriminate.
+  Qed.
+
+  Lemma indexed_att_valid_spec h ia : indexed_att_valid b h ia = is_valid_indexed_attestation b h ia.
+  Proof.
+    unfold indexed_att_valid, is_valid_indexed_attestation, indexed_attestation_static, indexed_attestation_signature,
+      indices_set_ok, signing_root, compute_signing_root, last_index.
+    set (l := ia_indices ia).
+    rewrite (N.leb_antisym (MAX_VALIDATORS_PER_COMMITTEE c) (lenN l)).
+    destruct (MAX_VALIDATORS_PER_COMMITTEE c <? lenN l) eqn:Hmax; cbn [negb andb].
+    { rewrite andb_false_r. reflexivity. }
+    destruct (lenN l =? 0) eqn:Hlen; cbn [negb andb]; [reflexivity|].
+    pose proof (go_sorted_distinct l) as Hsd.
+    destruct (go_is_sorted l) eqn:Hs; cbn [negb andb] in *.
+    2:{ rewrite <- Hsd. reflexivity. }
+    rewrite <- Hsd. destruct (go_adjacent_distinct l) eqn:Hd; cbn [negb andb]; [|reflexivity].
+    assert (Hne : l <> []) by (intros Hn; rewrite Hn in Hlen; discriminate).
+    destruct (last l 0 <? validator_count b h) eqn:Hlast; cbn [negb].
+    - assert (Hf : Forall (fun i => i < validator_count b h) l).
+      { apply strictly_increasing_bound; [symmetry; exact Hsd | lia | exact Hne]. }
+      rewrite (pubkeys_of_bounded h l _ Hf eq_refl).
+      destruct (pubkeys_of b h l) as [pks|] eqn:Hp; [|reflexivity].
+      pose proof (pubkeys_of_length _ _ _ Hp) as Hpl.
+      assert (Hpn : (lenN pks =? 0) = false) by (unfold lenN in *; lia).
+      rewrite Hpn. destruct (sig_ok b (ia_sig ia)); cbn [negb andb]; [|reflexivity].
+      unfold eth2_fast_aggregate_verify. destruct pks; [discriminate Hpn | reflexivity].
+    - destruct (validator_pubkeys b h l) as [pks|] eqn:Hp; [|reflexivity].
+      destruct (validator_pubkeys_some _ _ _ Hp) as [Hf _].
+      pose proof (last_bound _ _ Hf Hne). exfalso. apply N.ltb_ge in Hlast. clear - Hlast H. lia.
+  Qed.
+
+  Lemma is_aggregator_spec_eq n sel : is_aggregator b n sel = is_aggregator_spec b n sel.
+  Proof.
+    unfold is_aggregator, is_aggregator_spec.
+    generalize (n / TARGET_AGGREGATORS_PER_COMMITTEE). intros m.
+    destruct (m =? 0) eqn:E.
+    - apply N.eqb_eq in E. rewrite E. reflexivity.
+    - apply N.eqb_neq in E. rewrite N.max_r by lia. reflexivity.
+  Qed.
+
+  (* the per-entry committee lookups agree with the committee count (coherence of an EpochsContext) *)
+  Definition committee_coherent : Prop :=
+    forall e s i cm, committee b e s i = Some cm ->
+      exists n, committee_count b e (compute_epoch_at_slot b s) = Some n /\ i < n.
+
+  Lemma epoch_match_start e s : cfg_wf c -> s < two64 -> (e =? compute_epoch_at_slot b s) = true ->
+    exists ts, compute_start_slot_at_epoch b e = Some ts.
+  Proof.
+    intros Hc Hs He. destruct (compute_start_slot_at_epoch b e) eqn:E; [eexists; reflexivity|].
+    rewrite (start_overflow_epoch_mismatch e s Hc Hs E) in He. discriminate.
+  Qed.
+
+  Ltac agg_sel := lazy [ok_at rej_at all_conditions no_reject_fails forallb aggregate_conditions lmd_conditions app c_ok c_tag mk is_ignore].
+  Ltac agg_unf :=
+    unfold when_known, target_state, get_checkpoint_block, lmd_known, target_is_ancestor,
+      target_ancestry_known, finalized_is_ancestor, finalized_ancestry_known, compute_signing_root, sorted_attesting_indices.
+  Ltac agg_pre :=
+    try rewrite is_aggregator_spec_eq; try rewrite indexed_att_valid_spec; try rewrite select_bits_spec;
+    try match goal with
+        | Hcm : committee b ?e ?s ?i = Some ?cm, Hcoh : committee_coherent, He : (?tep =? compute_epoch_at_slot b ?s) = true |- _ =>
+          lazymatch goal with
+          | _ : committee_count b e tep = Some _ |- _ => fail
+          | _ => let n := fresh "cnt" in let H1 := fresh "Hcnt" in let H2 := fresh "Hidx" in
+                 destruct (Hcoh e s i cm Hcm) as [n [H1 H2]];
+                 rewrite <- (proj1 (N.eqb_eq _ _) He) in H1
+          end
+        end.
+  Ltac agg_step := seq_step agg_pre ltac:(fun t => leaf t agg_sel agg_unf).
+
+  Lemma aggregate_verdict_ok sa : cfg_wf c -> att_wf (a_data (ap_aggregate (sa_msg sa))) -> committee_coherent ->
+    verdict_ok (validate_aggregate b sa) (aggregate_conditions b sa).
+  Proof.
+    intros Hc [Hs He] Hcoh.
+    unfold validate_aggregate, validate_aggregate_v, verdict_ok.
+    cbn [exact_target agg_lmd_checks agg_outer_sig_prefix take_prefix fixed].
+    rewrite (start_slot_val_spec _ Hc He), (span_ok_spec _ Hs).
+    unfold selection_proof_valid, convert_to_indexed.
+    unfold checkpoint_block_of, finalized_checks, signing_root, signing_root_bytes, slot_to_epoch.
+    change (ad_slot (a_data (ap_aggregate (sa_msg sa))) / SLOTS_PER_EPOCH c) with (compute_epoch_at_slot b (ad_slot (a_data (ap_aggregate (sa_msg sa))))).
+    case_on (compute_start_slot_at_epoch b (cp_epoch (ad_target (a_data (ap_aggregate (sa_msg sa)))))).
+    2:{ pose proof (start_overflow_epoch_mismatch _ (ad_slot (a_data (ap_aggregate (sa_msg sa)))) Hc Hs E) as Hm.
+        rewrite Hm. cbn [negb]. repeat agg_step. }
+    rename n into ts.
+    repeat agg_step.
+  Qed.
+
+  Theorem aggregate_laws sa : cfg_wf c -> att_wf (a_data (ap_aggregate (sa_msg sa))) -> committee_coherent ->
+    verdict_laws (validate_aggregate b sa) (aggregate_conditions b sa).
+  Proof. intros. apply verdict_ok_laws, aggregate_verdict_ok; assumption. Qed.
+
 
 End Proofs.
